@@ -23,9 +23,9 @@ using namespace cppcms;
 static const int AGE=100; static const unsigned LIMIT=40; // default session.timeout, client_size_limit
 
 // ---- storage decorator: logs every sid that reaches the storage --------------------------------------------------
-struct Deco : public sessions::session_storage { booster::shared_ptr<sessions::session_storage> in; std::vector<std::string> *bad_sids; std::set<std::string> *saved; Deco(booster::shared_ptr<sessions::session_storage> s,std::vector<std::string> *b,std::set<std::string> *sv):in(s),bad_sids(b),saved(sv){}
+struct Deco : public sessions::session_storage { booster::shared_ptr<sessions::session_storage> in; std::vector<std::string> *bad_sids; std::set<std::string> *saved; std::map<std::string,time_t> *present; Deco(booster::shared_ptr<sessions::session_storage> s,std::vector<std::string> *b,std::set<std::string> *sv,std::map<std::string,time_t> *pr):in(s),bad_sids(b),saved(sv),present(pr){}
 	void chk(const std::string &sid){ bool ok=sid.size()==32; for(size_t i=0;i<sid.size()&&ok;i++) if(!((sid[i]>='0'&&sid[i]<='9')||(sid[i]>='a'&&sid[i]<='f'))) ok=false; if(!ok) bad_sids->push_back(sid); }
-	void save(std::string const &sid,time_t t,std::string const &d){ chk(sid); saved->insert(sid); in->save(sid,t,d); } bool load(std::string const &sid,time_t &t,std::string &o){ chk(sid); return in->load(sid,t,o); } void remove(std::string const &sid){ chk(sid); in->remove(sid); } bool is_blocking(){ return in->is_blocking(); } };
+	void save(std::string const &sid,time_t t,std::string const &d){ chk(sid); saved->insert(sid); (*present)[sid]=t; in->save(sid,t,d); } bool load(std::string const &sid,time_t &t,std::string &o){ chk(sid); return in->load(sid,t,o); } void remove(std::string const &sid){ chk(sid); present->erase(sid); in->remove(sid); } bool is_blocking(){ return in->is_blocking(); } };
 struct DecoFactory : public sessions::session_storage_factory { booster::shared_ptr<sessions::session_storage> st; DecoFactory(booster::shared_ptr<sessions::session_storage> s):st(s){} booster::shared_ptr<sessions::session_storage> get(){ return st; } bool requires_gc(){ return false; } void gc_job(){} };
 // ---- the browser ----------------------------------------------------------------------------------------------
 struct Jar : public session_interface_cookie_adapter { struct C { std::string v; bool session; time_t exp; }; std::map<std::string,C> c;
@@ -38,24 +38,30 @@ static const char *SC="cppcms_session";
 
 // ---- transitions --------------------------------------------------------------------------------------------------
 enum Kind { REQ, TICK, RESTART, ATTACK };
-struct Tr { Kind k; int op; int n; std::string name; int browser; Tr():browser(0){} };
+struct Tr { Kind k; int op; int n; std::string name; int browser; int op2; Tr():browser(0),op2(0){} };
 enum { O_NONE,O_SET_K_V1,O_SET_K_V2,O_SET_J_V1,O_ERASE_K,O_CLEAR,O_EXPOSE_K,O_HIDE_K,O_AGE10,O_DEFAGE,O_EXP_FIXED,O_EXP_RENEW,O_EXP_BROWSER,O_ONSRV1,O_ONSRV0,O_RESET,O_SET_BIG,NOPS };
 static const char *OPN[]={"-","set(k,v1)","set(k,v2)","set(j,v1)","erase(k)","clear()","expose(k)","hide(k)","age(10)","default_age()","expiration(fixed)","expiration(renew)","expiration(browser)","on_server(true)","on_server(false)","reset_session()","set(k,<big>)"};
 enum { A_OLD_TOKEN,A_NEVER_ISSUED,A_PATHLIKE_SHORT,A_PATHLIKE_33,A_UPPER,A_GARBAGE_I,A_GARBAGE_C,NATT, A_OTHER_BROWSER };
 static const char *ATN[]={"replay-oldest-token","never-issued-sid","I../../../x","path-like-33-chars","upper-case-sid","Ixyz","C+garbage"};
-struct Config { std::string location,storage,expire,label; bool with_on_server; };
+struct Config { std::string location,storage,expire,label; bool with_on_server; Config():with_on_server(false){} };
 static std::vector<Tr> alphabet(const Config &c){ std::vector<Tr> a; for(int o=0;o<NOPS;o++){ if((o==O_ONSRV1||o==O_ONSRV0)&&c.location!="both") continue; if(o==O_SET_BIG&&c.location=="server") continue; Tr t; t.k=REQ; t.op=o; t.n=0; t.name=std::string("request[")+OPN[o]+"]"; a.push_back(t); }
 	int ticks[]={1,9,11,99,101}; for(int i=0;i<5;i++){ Tr t; t.k=TICK; t.op=0; t.n=ticks[i]; t.name="tick("+std::to_string(ticks[i])+")"; a.push_back(t); } { Tr t; t.k=RESTART; t.op=0; t.n=0; t.name="browser-restart"; a.push_back(t); }
 	for(int i=0;i<NATT;i++){ Tr t; t.k=ATTACK; t.op=i; t.n=0; t.name=std::string("attacker[")+ATN[i]+"]"; a.push_back(t); } return a; }
 
 static std::vector<Tr> alphabet2(const Config &c){ std::vector<Tr> a; int ops[]={O_NONE,O_SET_K_V1,O_SET_K_V2,O_CLEAR,O_RESET,O_EXPOSE_K,O_ERASE_K}; for(int b=0;b<2;b++){ for(int i=0;i<7;i++){ Tr t; t.k=REQ; t.op=ops[i]; t.n=0; t.browser=b; t.name="browser"+std::to_string(b)+".request["+OPN[ops[i]]+"]"; a.push_back(t); } Tr at; at.k=ATTACK; at.op=A_OTHER_BROWSER; at.n=0; at.browser=b; at.name="browser"+std::to_string(b)+".installs-the-other-browsers-session-cookie"; a.push_back(at); } int ticks[]={11,101}; for(int i=0;i<2;i++){ Tr t; t.k=TICK; t.op=0; t.n=ticks[i]; t.name="tick("+std::to_string(ticks[i])+")"; a.push_back(t); } (void)c; return a; }
+
+// two operations in ONE request (location=both): every ordered pair of {set small, set big, erase, clear, on_server(true/false), reset_session()}
+static std::vector<Tr> alphabet3(const Config &c){ std::vector<Tr> a; int ops[]={O_SET_K_V1,O_SET_BIG,O_ERASE_K,O_CLEAR,O_ONSRV1,O_ONSRV0,O_RESET}; int singles[]={O_NONE,O_SET_K_V1,O_SET_BIG,O_ONSRV1};
+	for(int i=0;i<4;i++){ Tr t; t.k=REQ; t.op=singles[i]; t.n=0; t.name=std::string("request[")+OPN[singles[i]]+"]"; a.push_back(t); }
+	for(int i=0;i<7;i++) for(int j=0;j<7;j++){ if(i==j) continue; Tr t; t.k=REQ; t.op=ops[i]; t.op2=ops[j]; t.n=0; t.name=std::string("request[")+OPN[ops[i]]+" + "+OPN[ops[j]]+"]"; a.push_back(t); }
+	{ Tr t; t.k=TICK; t.op=0; t.n=101; t.name="tick(101)"; a.push_back(t); } { Tr t; t.k=ATTACK; t.op=A_OLD_TOKEN; t.n=0; t.name=std::string("attacker[")+ATN[A_OLD_TOKEN]+"]"; a.push_back(t); } (void)c; return a; }
 // ---- the model ---------------------------------------------------------------------------------------------------------
 typedef std::map<std::string,std::pair<std::string,bool> > Data; // key -> (value, exposed)
 struct Rec { Data data; std::set<time_t> D; bool server; };
 struct Model { std::map<std::string,Rec> rec; /* token -> record */ std::vector<std::string> issued; /* tokens in order of issue */ };
 static int m_int(const Data &d,const char *k,int def){ Data::const_iterator i=d.find(k); if(i==d.end()) return def; return atoi(i->second.first.c_str()); }
 
-struct World { bool tampered_[2]={false,false}; int cur=0; Config cfg; std::unique_ptr<session_pool> pool; Jar jars[2]; Jar &J(){ return jars[cur]; } const Jar &J() const { return jars[cur]; } bool &T(){ return tampered_[cur]; } Model M; std::vector<std::string> bad_sids; std::set<std::string> saved_sids; std::string dir; std::string err,sig; };
+struct World { bool tampered_[2]={false,false}; int cur=0; Config cfg; std::unique_ptr<session_pool> pool; Jar jars[2]; Jar &J(){ return jars[cur]; } const Jar &J() const { return jars[cur]; } bool &T(){ return tampered_[cur]; } Model M; std::vector<std::string> bad_sids; std::set<std::string> saved_sids; std::map<std::string,time_t> present; /* what the real storage holds: sid -> deadline (part of the state key, so that histories whose model states agree but whose real storage differs are not merged) */ std::string dir; std::string err,sig; };
 static void fail(World &w,const std::string &sig,const std::string &what){ if(w.err.empty()){ w.err=what; w.sig=sig; } }
 static std::string tok_class(const World &w,const std::string &t){ if(t.empty()) return "none"; for(size_t i=0;i<w.M.issued.size();i++) if(w.M.issued[i]==t) return "tok"+std::to_string(i); return "foreign"; }
 
@@ -63,11 +69,11 @@ static void build(World &w){ json::value s; s["session"]["location"]=w.cfg.locat
 	if(w.cfg.location!="server"){ s["session"]["client"]["hmac"]="sha1"; s["session"]["client"]["hmac_key"]="00112233445566778899aabbccddeeff00112233"; }
 	if(w.cfg.location!="client") s["session"]["server"]["storage"]=w.cfg.storage=="files"?"files":"memory";
 	w.pool.reset(new session_pool(s)); if(w.cfg.location!="client"){ booster::shared_ptr<sessions::session_storage> inner; if(w.cfg.storage=="files"){ mkdir(w.dir.c_str(),0777); if(DIR *d=opendir(w.dir.c_str())){ while(struct dirent *e=readdir(d)){ if(e->d_name[0]=='.') continue; unlink((w.dir+"/"+e->d_name).c_str()); } closedir(d); } inner.reset(new sessions::session_file_storage(w.dir,2,1,false)); } else { sessions::session_memory_storage_factory f; inner=f.get(); }
-		booster::shared_ptr<sessions::session_storage> deco(new Deco(inner,&w.bad_sids,&w.saved_sids)); w.pool->storage(std::unique_ptr<sessions::session_storage_factory>(new DecoFactory(deco))); }
+		booster::shared_ptr<sessions::session_storage> deco(new Deco(inner,&w.bad_sids,&w.saved_sids,&w.present)); w.pool->storage(std::unique_ptr<sessions::session_storage_factory>(new DecoFactory(deco))); }
 	w.pool->init(); }
 
 // one request
-static void request(World &w,int op){ std::string tok=w.J().get_session_cookie(SC); // what the browser sends
+static void request(World &w,int op,int op2=0){ std::string tok=w.J().get_session_cookie(SC); // what the browser sends
 	// model: what must be read
 	Data expect; bool must_alive=false,may_alive=false; std::map<std::string,Rec>::iterator r=w.M.rec.find(tok); if(r!=w.M.rec.end()){ for(std::set<time_t>::iterator d=r->second.D.begin();d!=r->second.D.end();++d){ if(*d>g_now) must_alive= must_alive||true; if(*d>=g_now) may_alive=true; } bool all_alive=true; for(std::set<time_t>::iterator d=r->second.D.begin();d!=r->second.D.end();++d) if(!(*d>g_now)) all_alive=false; must_alive=all_alive&&!r->second.D.empty(); expect=r->second.data; }
 	session_interface si(*w.pool,w.J()); bool loaded=false; try{ loaded=si.load(); }catch(std::exception const &e){ fail(w,"load-throws","session load throws: "+std::string(e.what())); return; }
@@ -83,7 +89,7 @@ static void request(World &w,int op){ std::string tok=w.J().get_session_cookie(S
 	// derived values the request reads
 	{ int age=m_int(cur,"_t",AGE); int how=m_int(cur,"_h",w.cfg.expire=="fixed"?session_interface::fixed:w.cfg.expire=="renew"?session_interface::renew:session_interface::browser); bool os=m_int(cur,"_s",0); if(si.age()!=age) fail(w,"wrong-age","age() reads "+std::to_string(si.age())+", expected "+std::to_string(age)); if(si.expiration()!=how) fail(w,"wrong-expiration","expiration() reads "+std::to_string(si.expiration())+", expected "+std::to_string(how)); if(si.on_server()!=os) fail(w,"wrong-on-server","on_server() differs"); if(si.is_set("k")!=(cur.count("k")>0)) fail(w,"wrong-is_set","is_set differs"); }
 	bool reset=false; std::string big(LIMIT+30,'B');
-	switch(op){ case O_NONE: break; case O_SET_K_V1: si.set("k","v1"); cur["k"].first="v1"; break; case O_SET_K_V2: si.set("k","v2"); cur["k"].first="v2"; break; case O_SET_J_V1: si.set("j","v1"); cur["j"].first="v1"; break; case O_ERASE_K: si.erase("k"); cur.erase("k"); break; case O_CLEAR: si.clear(); cur.clear(); break;
+	int opv[2]={op,op2}; for(int oq=0;oq<2;oq++) switch(opv[oq]){ case O_NONE: break; case O_SET_K_V1: si.set("k","v1"); cur["k"].first="v1"; break; case O_SET_K_V2: si.set("k","v2"); cur["k"].first="v2"; break; case O_SET_J_V1: si.set("j","v1"); cur["j"].first="v1"; break; case O_ERASE_K: si.erase("k"); cur.erase("k"); break; case O_CLEAR: si.clear(); cur.clear(); break;
 		case O_EXPOSE_K: si.expose("k"); cur["k"].second=true; break; case O_HIDE_K: si.hide("k"); cur["k"].second=false; break; case O_AGE10: si.age(10); cur["_t"].first="10"; break; case O_DEFAGE: si.default_age(); cur.erase("_t"); break;
 		case O_EXP_FIXED: si.expiration(session_interface::fixed); cur["_h"].first=std::to_string((int)session_interface::fixed); break; case O_EXP_RENEW: si.expiration(session_interface::renew); cur["_h"].first=std::to_string((int)session_interface::renew); break; case O_EXP_BROWSER: si.expiration(session_interface::browser); cur["_h"].first=std::to_string((int)session_interface::browser); break;
 		case O_ONSRV1: si.on_server(true); cur["_s"].first="1"; break; case O_ONSRV0: si.on_server(false); cur["_s"].first="0"; break; case O_RESET: si.reset_session(); reset=true; break; case O_SET_BIG: si.set("k",big); cur["k"].first=big; break; }
@@ -123,17 +129,18 @@ static void attack(World &w,int a){ w.T()=true; Jar::C x; x.session=true; x.exp=
 static std::string canon(const World &w){ std::ostringstream o; std::set<std::string> current; for(int b=0;b<2;b++){ Jar &jr=const_cast<Jar&>(w.jars[b]); std::string tok=jr.get_session_cookie(SC); current.insert(tok); o<<"jar"<<b<<":"<<tok_class(w,tok)<<(w.tampered_[b]?"!":""); std::map<std::string,Jar::C>::const_iterator jc=jr.c.find(SC); if(jc!=jr.c.end()){ if(jc->second.session) o<<"/s"; else { long rel=(long)(jc->second.exp-g_now); o<<"/"<<(rel<0?-1:rel); } }
 		for(std::map<std::string,Jar::C>::const_iterator i=jr.c.begin();i!=jr.c.end();++i) if(i->first!=SC&&jr.live(i->second)) o<<"|"<<i->first<<"="<<i->second.v<<(i->second.session?"s":std::to_string((long)(i->second.exp-g_now))); o<<" "; }
 	for(size_t t=0;t<w.M.issued.size();t++){ std::map<std::string,Rec>::const_iterator r=w.M.rec.find(w.M.issued[t]); if(r==w.M.rec.end()) continue; bool any=false; for(std::set<time_t>::const_iterator d=r->second.D.begin();d!=r->second.D.end();++d) if(*d>=g_now) any=true; if(!any) continue; bool cur=current.count(w.M.issued[t])>0; bool oldest=(t==0); if(!cur&&!oldest&&!r->second.server) continue; o<<";"<<(cur?"cur":oldest?"old0":"rec")<<(r->second.server?"S":"C")<<"{"; for(Data::const_iterator i=r->second.data.begin();i!=r->second.data.end();++i) o<<i->first<<"="<<i->second.first.substr(0,3)<<(i->second.second?"*":"")<<","; o<<"}d"; for(std::set<time_t>::const_iterator d=r->second.D.begin();d!=r->second.D.end();++d) o<<(long)(*d-g_now)<<","; }
+	o<<";stored:"; for(size_t t=0;t<w.M.issued.size();t++){ const std::string &tk=w.M.issued[t]; if(tk.size()<2||tk[0]!='I') continue; std::map<std::string,time_t>::const_iterator p=w.present.find(tk.substr(1)); if(p!=w.present.end()&&p->second>=g_now) o<<(current.count(tk)?"cur":t==0?"old0":"x")<<(w.M.rec.count(tk)?"":"?")<<","; }
 	return o.str(); }
 
 struct Run { bool ok; std::string canon,what,sig; };
 static Run run_history(const Config &cfg,const std::vector<Tr> &alpha,const std::vector<int> &h,const std::string &dir,std::vector<std::string> *trace=0){ Run r; r.ok=true; g_now=1000000; World w; w.cfg=cfg; w.dir=dir; build(w);
-	for(size_t i=0;i<h.size();i++){ const Tr &t=alpha[h[i]]; w.cur=t.browser; switch(t.k){ case REQ: request(w,t.op); break; case TICK: g_now+=t.n; break; case RESTART: w.J().restart(); break; case ATTACK: attack(w,t.op); break; } if(trace) trace->push_back(t.name+" => "+canon(w)); if(!w.err.empty()){ r.ok=false; r.what=w.err+" (at step "+std::to_string(i+1)+": "+t.name+")"; r.sig=w.sig; return r; } }
+	for(size_t i=0;i<h.size();i++){ const Tr &t=alpha[h[i]]; w.cur=t.browser; switch(t.k){ case REQ: request(w,t.op,t.op2); break; case TICK: g_now+=t.n; break; case RESTART: w.J().restart(); break; case ATTACK: attack(w,t.op); break; } if(trace) trace->push_back(t.name+" => "+canon(w)); if(!w.err.empty()){ r.ok=false; r.what=w.err+" (at step "+std::to_string(i+1)+": "+t.name+")"; r.sig=w.sig; return r; } }
 	// audit: one more read-only request per browser
 	for(int b=0;b<(cfg.label.find("two-browsers")!=std::string::npos?2:1);b++){ w.cur=b; request(w,O_NONE); if(!w.err.empty()) break; } if(!w.err.empty()){ r.ok=false; r.what=w.err+" (in the audit request after the history)"; r.sig=w.sig; return r; }
 	r.canon=canon(w); return r; }
 static std::string hist_str(const std::vector<Tr> &a,const std::vector<int> &h){ std::string s; for(size_t i=0;i<h.size();i++){ if(i) s+=" ; "; s+=a[h[i]].name; } return s; }
 
-static std::vector<Tr> alphabet_for(const Config &cfg){ return cfg.label.find("two-browsers")!=std::string::npos? alphabet2(cfg):alphabet(cfg); }
+static std::vector<Tr> alphabet_for(const Config &cfg){ if(cfg.label.find("two-ops")!=std::string::npos) return alphabet3(cfg); return cfg.label.find("two-browsers")!=std::string::npos? alphabet2(cfg):alphabet(cfg); }
 static void bfs(const Config &cfg,int maxdepth,double deadline_s,const std::string &dir){ std::vector<Tr> alpha=alphabet_for(cfg); std::unordered_map<std::string,std::vector<int> > seen; std::deque<std::pair<std::string,int> > fr; Run r0=run_history(cfg,alpha,std::vector<int>(),dir); if(!r0.ok){ vf::violation(cfg.label+":"+r0.sig,r0.what+" [empty history, "+cfg.label+"]","\"config\":"+vf::jstr(cfg.label)+",\"history\":[]"); return; } seen[r0.canon]=std::vector<int>(); fr.push_back(std::make_pair(r0.canon,0)); uint64_t states=1,trans=0; int depth_done=0; bool complete=true;
 	while(!fr.empty()){ std::pair<std::string,int> cur=fr.front(); if(cur.second>=maxdepth) break; if(cur.second>depth_done){ depth_done=cur.second; } if(vf::elapsed()>deadline_s){ complete=false; vf::C().exhaustive=false; break; } fr.pop_front(); std::vector<int> h=seen[cur.first];
 		for(size_t op=0;op<alpha.size();op++){ h.push_back(op); vf::announce(cfg.label+" "+hist_str(alpha,h)); Run r=run_history(cfg,alpha,h,dir); trans++; vf::eval(); if(!r.ok){ std::string hs; for(size_t i=0;i<h.size();i++) hs+=(i?",":"")+std::to_string(h[i]); vf::violation(cfg.label+":"+r.sig,r.what+" [history: "+hist_str(alpha,h)+"; "+cfg.label+"]","\"config\":"+vf::jstr(cfg.label)+",\"history\":["+hs+"],\"history_text\":"+vf::jstr(hist_str(alpha,h))); }
@@ -141,7 +148,8 @@ static void bfs(const Config &cfg,int maxdepth,double deadline_s,const std::stri
 	if(fr.empty()) vf::guard(("bfs_fixpoint:"+cfg.label).c_str()); vf::guard(("bfs_depth:"+cfg.label).c_str(),complete? (fr.empty()?depth_done+1:maxdepth):depth_done); vf::C().states+=states; vf::C().transitions+=trans; vf::C().traces+=trans+1; }
 static void nodedup(const Config &cfg,int depth,const std::string &dir){ std::vector<Tr> alpha=alphabet_for(cfg); std::vector<int> h; std::function<void(int)> rec=[&](int d){ if(d==depth){ Run r=run_history(cfg,alpha,h,dir); vf::eval(); vf::C().traces++; vf::guard("nodedup_sequences"); if(!r.ok){ std::string hs; for(size_t i=0;i<h.size();i++) hs+=(i?",":"")+std::to_string(h[i]); vf::violation(cfg.label+":"+r.sig,r.what+" [history: "+hist_str(alpha,h)+"; "+cfg.label+"]","\"config\":"+vf::jstr(cfg.label)+",\"history\":["+hs+"]"); } return; } for(size_t op=0;op<alpha.size();op++){ h.push_back(op); rec(d+1); h.pop_back(); } }; rec(0); }
 // damaged records handed back by the storage: load must throw cppcms_error or yield a well-formed map, never read outside
-static void damaged_records(){ Jar jar; json::value s; s["session"]["location"]="server"; s["session"]["server"]["storage"]="memory"; s["session"]["timeout"]=AGE; s["session"]["expire"]="renew"; session_pool pool(s); sessions::session_memory_storage_factory f; booster::shared_ptr<sessions::session_storage> st=f.get(); std::vector<std::string> bad; std::set<std::string> sv; booster::shared_ptr<sessions::session_storage> deco(new Deco(st,&bad,&sv)); pool.storage(std::unique_ptr<sessions::session_storage_factory>(new DecoFactory(deco))); pool.init(); g_now=1000000;
+static std::map<std::string,time_t> g_dummy_present;
+static void damaged_records(){ Jar jar; json::value s; s["session"]["location"]="server"; s["session"]["server"]["storage"]="memory"; s["session"]["timeout"]=AGE; s["session"]["expire"]="renew"; session_pool pool(s); sessions::session_memory_storage_factory f; booster::shared_ptr<sessions::session_storage> st=f.get(); std::vector<std::string> bad; std::set<std::string> sv; booster::shared_ptr<sessions::session_storage> deco(new Deco(st,&bad,&sv,&g_dummy_present)); pool.storage(std::unique_ptr<sessions::session_storage_factory>(new DecoFactory(deco))); pool.init(); g_now=1000000;
 	{ session_interface si(pool,jar); si.load(); si.set("key","value"); si.set("other",std::string(70,'z')); si.expose("key"); si.save(); } std::string tok=jar.get_session_cookie(SC); std::string sid=tok.substr(1); time_t to; std::string good; st->load(sid,to,good);
 	auto probe=[&](const std::string &blob,const std::string &how){ vf::eval(); std::string *heap=new std::string(blob.data(),blob.size()); st->save(sid,g_now+50,*heap); delete heap; session_interface si(pool,jar); try{ si.load(); std::set<std::string> ks=si.key_set(); for(std::set<std::string>::iterator i=ks.begin();i!=ks.end();++i) if(i->size()>blob.size()||si.get(*i).size()>blob.size()) vf::violation("damaged-record:oversized-entry","a damaged stored record yields an entry larger than the record ("+how+")","\"case\":"+vf::jstr(how)); vf::guard("damaged_loaded"); }catch(cppcms_error const &){ vf::guard("damaged_refused"); }catch(std::exception const &e){ vf::violation("damaged-record:other-exception","a damaged stored record raises "+std::string(e.what())+" ("+how+")","\"case\":"+vf::jstr(how)); } };
 	for(size_t n=0;n<=good.size();n++) probe(good.substr(0,n),"truncated to "+std::to_string(n)); uint32_t vals[]={0,1,0x3ff,0x400,0x7ff,0xffffffffu,0x80000000u,0x7fffffffu,0xfffffc00u,0x000ffc00u}; for(size_t off=0;off+4<=good.size();off++) for(int v=0;v<10;v++){ std::string m=good; memcpy(&m[off],&vals[v],4); probe(m,"u32@"+std::to_string(off)+"="+std::to_string(vals[v])); } }
@@ -149,11 +157,12 @@ static void damaged_records(){ Jar jar; json::value s; s["session"]["location"]=
 int main(int argc,char **argv){ vf::init(argc,argv,"C06","model_checking"); bool th=vf::thorough(); std::vector<Config> cfgs; const char *loc[]={"client","server","both"}; const char *ex[]={"fixed","renew","browser"};
 	for(int l=0;l<3;l++) for(int e=0;e<3;e++) for(int s=0;s<2;s++){ if(l==0&&s==1) continue; if(s==1&&!(th||(l==1&&e==1))) continue; Config c; c.location=loc[l]; c.expire=ex[e]; c.storage=s?"files":"memory"; c.label=c.location+"/"+c.expire+(l?"/"+c.storage:""); cfgs.push_back(c); }
 	{ const char *tl[]={"client","server","both"}; const char *te[]={"renew","renew","fixed"}; for(int i=0;i<3;i++){ Config c; c.location=tl[i]; c.expire=te[i]; c.storage="memory"; c.label=c.location+"/"+c.expire+(i?"/memory":"")+"/two-browsers"; cfgs.push_back(c); } }
+	{ const char *te[]={"fixed","renew"}; for(int i=0;i<2;i++){ Config c; c.location="both"; c.expire=te[i]; c.storage="memory"; c.label="both/"+c.expire+"/memory/two-ops"; cfgs.push_back(c); } }
 	if(!vf::C().replay_file.empty()){ std::ifstream f(vf::C().replay_file); std::stringstream ss; ss<<f.rdbuf(); std::string l=ss.str(); std::string label=vf::jfield(l,"config"); size_t p=l.find("\"history\":["); std::vector<int> h; if(p!=std::string::npos){ size_t e=l.find(']',p); h=vf::parse_choices(l.substr(p+11,e-p-11)); } for(size_t i=0;i<cfgs.size();i++) if(cfgs[i].label==label){ std::vector<std::string> tr; Run r=run_history(cfgs[i],alphabet_for(cfgs[i]),h,vf::scratch_dir()+"/replay",&tr); for(size_t k=0;k<tr.size();k++) printf("  %s\n",tr[k].c_str()); printf("replay: %s\n",r.ok?"history conforms":r.what.c_str()); if(!r.ok) vf::violation(label+":"+r.sig,r.what,"\"config\":"+vf::jstr(label)); } return vf::finish(); }
 	int depth=th?5:4; int nd=th?3:2; double dl=vf::C().budget_s*0.75;
-	vf::C().rule="transition = one request over the real session_interface/session_pool with a simulated browser jar (load, compare everything it reads with the model, apply one of 17 operations, save), a clock advance {1,9,11,99,101}, a browser restart, or one of 7 attacker cookie replacements; configurations location {client,server,both} x expire {fixed,renew,browser} x storage {memory, files}; three two-browser configurations (each browser: 7 operations, stealing the other browser's session cookie; ticks 11/101) to depth 4 (5); state = history replayed on a fresh pool, dedup on the canonical model (jar, live records, deadline sets relative to now); plus a no-dedup pass and damaged stored records (every truncation, every 4-byte window set to 10 values). distinct = (configuration, canonical state)";
+	vf::C().rule="transition = one request over the real session_interface/session_pool with a simulated browser jar (load, compare everything it reads with the model, apply one of 17 operations, save), a clock advance {1,9,11,99,101}, a browser restart, or one of 7 attacker cookie replacements; configurations location {client,server,both} x expire {fixed,renew,browser} x storage {memory, files}; three two-browser configurations (each browser: 7 operations, stealing the other browser's session cookie; ticks 11/101) to depth 4 (5); two two-operations-per-request configurations (location=both: 4 single operations + all 42 ordered pairs of {set small, set big, erase, clear, on_server(true), on_server(false), reset_session()} in one request, tick 101, attacker replaying the oldest token) to depth 3 (4); state = history replayed on a fresh pool, dedup on the canonical model (jar, live records, deadline sets relative to now); plus a no-dedup pass and damaged stored records (every truncation, every 4-byte window set to 10 values). distinct = (configuration, canonical state)";
 	vf::assume("virtual clock via interposed time(); at now == deadline either verdict is accepted; in renew/browser mode an unchanged session may or may not be renewed while less than 10% of its age has elapsed (set of admissible deadlines)"); vf::assume("session ids come from the real /dev/urandom; the model is keyed by the tokens actually issued, so no value is assumed; unpredictability itself is not decidable by enumeration - only freshness (never issued before) is checked"); vf::assume("replay of an old client-side cookie is accepted by design (stateless); only server-side ids must become unusable");
-	vf::parallel(cfgs.size()+1,16,[&](int i){ if(i==(int)cfgs.size()){ damaged_records(); return; } std::string dir=vf::scratch_dir()+"/s"+std::to_string(i); bool two=cfgs[i].label.find("two-browsers")!=std::string::npos; bfs(cfgs[i],two?(th?5:4):depth,dl,dir); if(cfgs[i].storage=="memory"&&!two) nodedup(cfgs[i],nd,dir); },th?1500:115);
+	vf::parallel(cfgs.size()+1,16,[&](int i){ if(i==(int)cfgs.size()){ damaged_records(); return; } std::string dir=vf::scratch_dir()+"/s"+std::to_string(i); bool two=cfgs[i].label.find("two-browsers")!=std::string::npos; bool tops=cfgs[i].label.find("two-ops")!=std::string::npos; bfs(cfgs[i],tops?(th?4:3):two?(th?5:4):depth,dl,dir); if(tops) return; if(cfgs[i].storage=="memory"&&!two) nodedup(cfgs[i],nd,dir); },th?1500:115);
 	vf::C().extra["bound"]="{\"bfs_max_depth\":"+std::to_string(depth)+",\"nodedup_depth\":"+std::to_string(nd)+",\"configs\":"+std::to_string(cfgs.size())+"}";
 	vf::require_guard("nodedup_sequences"); vf::require_guard("damaged_refused");
 	return vf::finish(); }
